@@ -16,8 +16,11 @@ import (
 func TestC09PoolConstruction(t *testing.T) {
 	seen := map[string]int{}
 	rapid.Check(t, func(rt *rapid.T) {
-		p, groups := C09GenPool(rt, C09PoolCfg{ND: 3, NO: 3, NSpec: 6, MaxKeys: 8,
-			Kinds: []string{"small", "small-nc", "undecodable"}})
+		p, groups := C09GenPool(rt, C09PoolCfg{ND: 2, NO: 2, NSpec: 5, MaxKeys: 8,
+			Kinds: []string{"small", "small-nc", "undecodable"}, NegOf0: true})
+		if k0, k2 := p.Keys[0].Bytes(), p.Keys[2].Bytes(); k0[31]^k2[31] != 0x80 || string(k0[:31]) != string(k2[:31]) {
+			rt.Fatalf("NegOf0: %x vs %x", k0, k2)
+		}
 		decide := func(b C09Built, o C09Opt) (bool, bool) {
 			if len(b.PK) != 32 || !o.Legal(len(b.Msg)) {
 				return false, false
